@@ -151,6 +151,22 @@ def run(rep):
             and all(re.match(r"^State::pop_abort_function_call\(state\)\.0\.0$", d) for d in plr.describe(ac[0].args[2])) and all(re.match(r"^State::pop_abort_function_call\(state\)\.0\.1$", d) for d in plr.describe(ac[0].args[3]))
     rep.check(ok, "C02-R7", plr.def_, "queued-abort-executed", "every abort popped from the queue must be executed (abort_call) with the queued serial and callee before anything else is popped", detail={"sites": len(ac)})
 
+    # broker serials of pending calls are not handed out again early: the counter of SerialMap only advances (a late or
+    # duplicate reply to a resolved call must find nothing, R2 "entry-removed" relies on that)
+    n_next = 0
+    for d_, sb in sorted(prog.bodies.items()):
+        if not d_.startswith("aldrin_broker::serial_map::SerialMap") or "::test" in d_:
+            continue
+        for i in sorted(sb.live_blocks()):
+            for st in sb.blocks[i]["s"]:
+                if st["d"][-1:] == [".next"] and st["d"][0] == 1 and st["r"]["k"] == "use":
+                    n_next += 1
+                    ds = sb.describe(st["r"]["o"][0])
+                    ok = all(re.match(r"^num::wrapping_add\(self\.next, const:1_u32\)$", x) for x in ds)
+                    rep.check(ok, "C02-R5", sb.def_, "serial-counter-only-advances", "the serial counter may only advance by one (wrapping): assigning %s hands a serial out again while a late reply to the resolved call that carried it may still arrive, and that reply would be forwarded to the wrong caller" % sorted(ds),
+                              line=sb.span, detail={"value": sorted(ds)})
+    rep.floor("C02-R5", "assignments of the serial counter", n_next, 1)
+
     rs = M["remove_service"]
     pushes = [c for c in rs.calls if c.name == "push_remove_function_call"]
     rrm = [c for c in rs.calls if c.name == "remove" and any_match(rs.describe(c.args[0]), r"^self\.function_calls$")]
